@@ -122,6 +122,11 @@ def renamings(params):
         if "?w" not in params and "?z" not in params:
             out.append(("onto-two-bound-names", {params[0]: "?z", params[1]: "?w", **{p: p for p in params[2:]}}))
             out.append(("onto-two-bound-names-crossed", {params[0]: "?w", params[1]: "?z", **{p: p for p in params[2:]}}))
+    if len(params) >= 2 and "?z" not in params and "?z_0" not in params:
+        # one parameter onto the bound name, another onto the name the displaced bound variable would be given
+        out.append(("onto-bound-and-its-fresh-name", {params[0]: "?z", params[1]: "?z_0", **{p: p for p in params[2:]}}))
+        out.append(("onto-bound-and-its-fresh-name-crossed", {params[0]: "?z_0", params[1]: "?z", **{p: p for p in params[2:]}}))
+        out.append(("onto-two-fresh-names", {params[0]: "?z", params[1]: "?z_1", **{p: p for p in params[2:]}}))
     # the same maps with their entries listed in the opposite order (a map is a map, however it was built)
     for kind, ren in list(out):
         if len(ren) >= 2 and kind in ("fresh", "perm", "chain"):
